@@ -1,6 +1,6 @@
 PROFILE = {"weights": [2, 3, 1, 1, 2, 0, 2, 14, 0, 1], "act": {"tick": 8, "feed": 14, "connect": 4, "connect_result": 6, "peer_close": 1.5, "peer_reset": 1.5},
            "send": 12}
-ASSUME = ["the selection callback is the harness's (it records the offered peers and returns the first or last as the scenario says)",
+ASSUME = ["the selection callback is the harness's (it records the offered peers and returns the first or last as the scenario says, or hands over to the library's default select_least_used_peer, whose choice is judged against the public request counters shown before the step)",
           "send_request is called from virtual application threads; hop-by-hop ids drawn on different connections by ONE application are distinct (its waiters are keyed by hop-by-hop id alone); different applications may draw equal ids on different connections"]
 
 
@@ -22,4 +22,7 @@ def enum_plans(tier):
             # answers in every order, also repeated
             dict(cfg="TWOSAME", depth=5 if th else 4, maxtime=0, alpha=["send1", "sans"], faults=False, maxconn=2, prefix=two_ready_prefix()),
             # requests naming a Destination-Host: the other application's peer, ready and in the same realm, stays ineligible
-            dict(cfg="TWOAPPS", depth=4 if th else 3, maxtime=1, alpha=["sendh", "sans"], faults=False, maxconn=2, prefix=two_ready_prefix())]
+            dict(cfg="TWOAPPS", depth=4 if th else 3, maxtime=1, alpha=["sendh", "sans"], faults=False, maxconn=2, prefix=two_ready_prefix()),
+            # the library's own selection callback (select_least_used_peer) between two eligible ready peers whose request
+            # counters are moved apart and level again by watchdog requests on either connection
+            dict(cfg="HOLD2", depth=6 if th else 5, maxtime=0, alpha=["sendd", "dwr"], faults=False, maxconn=2, prefix=two_ready_prefix())]
